@@ -1343,6 +1343,12 @@ def fam_bad(tier, seed):
     mk("R2_mix_seq", [Rule("R", Call("S", "s"), export=True), Rule("S", Seq(Call("A", "@"), Call("B", "x"))), A(), B()], "error")
     mk("R2_mix_choice", [Rule("R", Call("S", "s"), export=True), Rule("S", Choice(Call("A", "@"), Call("B", "x"))), A(), B()], "error")
     mk("R2_mix_include", [Rule("R", Call("S", "s"), export=True), Rule("S", Seq(Call("A", "@"), Inc("I"))), Rule("I", Call("B", "x")), A(), B()], "error")
+    # ... whatever comes first: the named field, the override, and however deep
+    mk("R2_mix_seq_named_first", [Rule("R", Call("S", "s"), export=True), Rule("S", Seq(Call("B", "x"), Call("A", "@"))), A(), B()], "error")
+    mk("R2_mix_choice_named_first", [Rule("R", Call("S", "s"), export=True), Rule("S", Choice(Call("B", "x"), Seq(Lit("("), Call("A", "@"), Lit(")")))), A(), B()], "error")
+    mk("R2_mix_named_first_in_opt", [Rule("R", Call("S", "s"), export=True), Rule("S", Seq(Opt(Call("B", "x")), Call("A", "@"))), A(), B()], "error")
+    mk("R2_mix_named_twice_then_override", [Rule("R", Call("S", "s"), export=True), Rule("S", Seq(Call("B", "x"), Call("B", "y"), Clo(Call("A", "@")))), A(), B()], "error")
+    mk("R2_mix_include_named_first", [Rule("R", Call("S", "s"), export=True), Rule("S", Seq(Inc("I"), Call("A", "@"))), Rule("I", Call("B", "x")), A(), B()], "error")
     mk("R2_ok_override_plain", [Rule("R", Call("S", "s"), export=True), Rule("S", Seq(Call("A", "@"), Call("B"))), A(), B()], "code")
     mk("R2_ok_string_ignores_fields", [Rule("R", Call("S", "s"), export=True),
                                        Rule("S", Seq(Call("A", "@"), Call("B", "x")), string=True), A(), B()], "code")
@@ -1763,8 +1769,8 @@ def fam_types(tier, seed):
     for i in range(0, len(RAW_OK), 8):
         ch = RAW_OK[i:i + 8]
         rules = [Rule("S", Seq(*([Call(k, k) for k in ch] + [Call("Any", "any"), Clo(Choice(*[Call(k, ch[0]) for k in ch[:3]]))])), export=True),
-                 Rule("Any", Choice(*[Call(k, "@") for k in ch]))]
-        rules += [Rule(k, Lit("k%d" % j), position=(j % 2 == 0)) for j, k in enumerate(ch)]
+                 Rule("Any", Choice(*[Call(k, "@") for k in ch]), position=True)]
+        rules += [Rule(k, Lit("k%d" % j), position=True) for j, k in enumerate(ch)]
         g = Grammar("x", rules, meta={"shape": "keywords_chunk_%d" % (i // 8)})
         g.alpha = ["k"]
         add(g)
